@@ -199,7 +199,7 @@ func WithMaxOutboundPeers(n int) Option {
 // WithMaxInflightRPCs sets the maximum number of concurrent RPCs per peer. When
 // a peer reaches this limit, the syncer stops accepting new RPCs from it until
 // an in-flight one completes, i.e. it applies backpressure rather than dropping
-// RPCs. The default is 64.
+// RPCs. A value <= 0 disables the limit. The default is 64.
 func WithMaxInflightRPCs(n int) Option {
 	return func(c *config) { c.MaxInflightRPCs = n }
 }
@@ -479,7 +479,16 @@ func (s *Syncer) runPeer(p *Peer) {
 	defer done()
 
 	subnet := s.subnetKey(p.ConnAddr)
-	inflight := make(chan struct{}, s.config.MaxInflightRPCs)
+	// a limit <= 0 disables the per-peer cap (as for the per-subnet limit)
+	var inflight chan struct{}
+	if s.config.MaxInflightRPCs > 0 {
+		inflight = make(chan struct{}, s.config.MaxInflightRPCs)
+	}
+	release := func() {
+		if inflight != nil {
+			<-inflight
+		}
+	}
 	for {
 		if p.Err() != nil {
 			return
@@ -489,22 +498,24 @@ func (s *Syncer) runPeer(p *Peer) {
 			p.setErr(err)
 			return
 		}
-		select {
-		case inflight <- struct{}{}:
-		case <-s.tg.Done():
-			return
+		if inflight != nil {
+			select {
+			case inflight <- struct{}{}:
+			case <-s.tg.Done():
+				return
+			}
 		}
 		// enforce the per-subnet in-flight cap; the slot is held until the
 		// handler completes, so reconnecting does not grant a fresh allowance.
 		if !s.acquireInflight(subnet) {
-			<-inflight
+			release()
 			stream.Close()
 			s.log.Debug("rejected rpc: subnet in-flight limit reached", zap.Stringer("peer", p), zap.Stringer("rpc", id), zap.String("subnet", subnet), zap.Int("limit", s.config.MaxInflightRPCsPerSubnet))
 			continue
 		}
 
 		go func() {
-			defer func() { <-inflight }()
+			defer release()
 			defer s.releaseInflight(subnet)
 
 			done, err := s.tg.Add()
